@@ -3,6 +3,7 @@ import json, os, sys, time, re
 
 EXIT_OK, EXIT_VIOLATION, EXIT_HARNESS = 0, 1, 2
 ROOT = '/verif'
+OUT = os.environ.get('VF_OUT', ROOT)     # seed tests redirect evidence/replays away from the committed files
 KF_FILE = os.path.join(ROOT, 'known_findings.txt')
 
 
@@ -51,7 +52,7 @@ class Report:
                               mandatory=mandatory, detail=detail))
         self.solver_s += seconds
         if status == 'inconclusive' and mandatory:
-            self.errors.append('inconclusive mandatory obligation: %s (%s)' % (name, detail))
+            self.errors.append('inconclusive mandatory obligation: %s (%s)' % (name, str(detail)[:300]))
         if status == 'vacuous':
             self.errors.append('vacuous harness (reachability twin unsat): %s' % name)
         tag = {'proved': 'ok ', 'refuted': 'CEX', 'inconclusive': '???', 'witness': 'wit', 'vacuous': 'VAC'}[status]
@@ -63,7 +64,7 @@ class Report:
 
     def violation(self, what, replay):
         """A counterexample that reproduced against the real code and is not a known finding."""
-        d = os.path.join(ROOT, 'replays', self.pid)
+        d = os.path.join(OUT, 'replays', self.pid)
         os.makedirs(d, exist_ok=True)
         n = len(os.listdir(d))
         path = os.path.join(d, '%d.json' % n)
@@ -113,8 +114,8 @@ class Report:
         ev = dict(property_id=self.pid, tier=self.tier, seed=self.seed, level=self.level, coverage=cov,
                   assumptions=self.assumptions, wall_s=round(time.time() - self.t0, 2),
                   violations=len(self.violations))
-        os.makedirs(os.path.join(ROOT, 'evidence'), exist_ok=True)
-        with open(os.path.join(ROOT, 'evidence', self.pid + '.json'), 'w') as f:
+        os.makedirs(os.path.join(OUT, 'evidence'), exist_ok=True)
+        with open(os.path.join(OUT, 'evidence', self.pid + '.json'), 'w') as f:
             json.dump(ev, f, indent=1, default=str)
         print('%s tier=%s: %d obligations: %d proved, %d refuted, %d inconclusive, %d witnesses; solver %.1fs wall %.1fs'
               % (self.pid, self.tier, n_all, proved, refuted, inconc, wit, self.solver_s, ev['wall_s']), flush=True)
